@@ -71,7 +71,7 @@ func UnmarshalIdentifier(payload []byte, schema *Schema) (Identifier, error) {
 //
 // schema must not be nil.
 func UnmarshalIdentifiers(payload []byte, schema *Schema) (Identifiers, error) {
-	raw := []*json.RawMessage{}
+	raw := []json.RawMessage{}
 
 	err := json.Unmarshal(payload, &raw)
 	if err != nil {
@@ -81,7 +81,7 @@ func UnmarshalIdentifiers(payload []byte, schema *Schema) (Identifiers, error) {
 	idens := make([]Identifier, len(raw))
 
 	for i, r := range raw {
-		iden, err := UnmarshalIdentifier(*r, schema)
+		iden, err := UnmarshalIdentifier(r, schema)
 		if err != nil {
 			return nil, err
 		}
